@@ -164,6 +164,7 @@ func (c *FnCtx) evalAppend(x *ast.CallExpr, st *State) string {
 	rowSort := "(Array Int " + es + ")"
 	var tlen string
 	var tget func(i string) string
+	var tSlice, tRow string
 	noop := "false"
 	if x.Ellipsis.IsValid() {
 		tt := c.typeOf(x.Args[1])
@@ -183,6 +184,7 @@ func (c *FnCtx) evalAppend(x *ast.CallExpr, st *State) string {
 			trow := c.fresh("aptrow", rowSort)
 			st.addDef(eq(trow, sel(c.h(st, an, asrt), "(sbase "+t+")")))
 			tget = func(i string) string { return sel(trow, "(+ (soff "+t+") "+i+")") }
+			tSlice, tRow = t, trow
 		}
 		noop = eq(tlen, "0")
 	} else {
@@ -231,6 +233,13 @@ func (c *FnCtx) evalAppend(x *ast.CallExpr, st *State) string {
 		res, s, res, newLen, resRow, tget("(- i (+ (soff "+res+") (slen "+s+")))"), resRow))
 	st.addDef(implies(and(fits, not(noop)), fmt.Sprintf("(forall ((i Int)) (! (=> (or (< i %s) (>= i (+ %s %s))) (= (select %s i) (select %s i))) :pattern ((select %s i))))", lo, lo, tlen, resRow, oldRow, resRow)))
 	st.addDef(eq("(slen "+res+")", newLen))
+	// the same facts triggered from the source rows (lets the solver find shifted-index witnesses)
+	st.addDef(fmt.Sprintf("(forall ((x Int)) (! (=> (and (<= (soff %s) x) (< x (+ (soff %s) (slen %s)))) (= (select %s (+ (soff %s) (- x (soff %s)))) (select %s x))) :pattern ((select %s x))))",
+		s, s, s, resRow, res, s, oldRow, oldRow))
+	if tSlice != "" {
+		st.addDef(fmt.Sprintf("(forall ((x Int)) (! (=> (and (<= (soff %s) x) (< x (+ (soff %s) (slen %s)))) (= (select %s (+ (soff %s) (slen %s) (- x (soff %s)))) (select %s x))) :pattern ((select %s x))))",
+			tSlice, tSlice, tSlice, resRow, res, s, tSlice, tRow, tRow))
+	}
 	c.setH(st, "alloc", "(Array Int Bool)", ite(or(fits, noop), al, store(al, nb, "true")))
 	c.setH(st, an, asrt, E2)
 	st.addDef(c.typeInv(st, res, st0, 0))
@@ -447,6 +456,24 @@ func (c *FnCtx) evalSpecBuiltin(x *ast.CallExpr, fobj *types.Func, st *State) st
 		body := c.eval(rs.Results[0], st)
 		c.specMode--
 		c.specEnv = c.specEnv[:len(c.specEnv)-1]
+		if len(ranges) == 0 && !noAbsolutize {
+			// slice indices relative to a header become absolute array positions (arithmetic-free triggers)
+			for obj, bn := range env {
+				if c.tt.sortOf(obj.Type()) != sInt {
+					continue
+				}
+				pn := bn + "p"
+				if nb, ok := absolutize(body, bn, pn); ok {
+					body = nb
+					env[obj] = pn
+					for i, b := range binders {
+						if b == "("+bn+" Int)" {
+							binders[i] = "(" + pn + " Int)"
+						}
+					}
+				}
+			}
+		}
 		if name == "V_forall" {
 			inner := implies(and(ranges...), body)
 			if len(env) == 1 {
@@ -517,6 +544,23 @@ func (c *FnCtx) evalSpecBuiltin(x *ast.CallExpr, fobj *types.Func, st *State) st
 	case "V_sameslice":
 		a, b := c.eval(x.Args[0], st), c.eval(x.Args[1], st)
 		return and(eq("(sbase "+a+")", "(sbase "+b+")"), eq("(soff "+a+")", "(soff "+b+")"), eq("(slen "+a+")", "(slen "+b+")"))
+	case "V_itoa", "V_atoi", "V_parseIntOk", "V_parseUintOk", "V_isDecimal", "V_isDecInt", "V_parseFloat":
+		// conversion laws of reflectmodel.go
+		c.useReflect()
+		fn := map[string]string{"V_itoa": "itoa", "V_atoi": "atoi", "V_parseIntOk": "parseIntOk", "V_parseUintOk": "parseUintOk",
+			"V_isDecimal": "isDecimalLexical", "V_isDecInt": "isDecInt", "V_parseFloat": "parseFloatVal"}[name]
+		var as []string
+		for _, a := range x.Args {
+			as = append(as, c.eval(a, st))
+		}
+		return app(fn, as...)
+	case "V_comparable":
+		// the dynamic type of an interface value supports == (nil always does)
+		v := c.convertTo(c.eval(x.Args[0], st), c.typeOf(x.Args[0]), types.NewInterfaceType(nil, nil), st)
+		return or(eq(v, "inil"), "(tcomparable (ityp "+v+"))")
+	case "V_sameref":
+		// identity of two references (maps cannot be compared with == in Go)
+		return eq(c.eval(x.Args[0], st), c.eval(x.Args[1], st))
 	case "V_nonNilPayload":
 		// an interface value that is nil or holds a non-nil pointer (not a typed nil)
 		v := c.eval(x.Args[0], st)
@@ -598,9 +642,9 @@ func (c *FnCtx) evalSpecBuiltin(x *ast.CallExpr, fobj *types.Func, st *State) st
 	case "V_hasSuffix":
 		return "(str.suffixof " + c.eval(x.Args[1], st) + " " + c.eval(x.Args[0], st) + ")"
 	case "V_kindof":
-		c.declareFun("kindOfTid", []string{sInt}, sInt)
+		c.useReflect()
 		v := c.convertTo(c.eval(x.Args[0], st), c.typeOf(x.Args[0]), types.NewInterfaceType(nil, nil), st)
-		return "(kindOfTid (ityp " + v + "))"
+		return ite(eq(v, "inil"), "0", "(kindOfTid (ityp "+v+"))")
 	}
 	c.fail(x.Pos(), "unsupported spec builtin %s", name)
 	return ""
